@@ -30,6 +30,15 @@ func specGfmul(a, b T) T {
 	return r
 }
 
+// specWord is the k-th little-endian 16-bit word of a byte slice.
+func specWord(s []byte, k int) T {
+	return T(s[2*k]) | T(s[2*k+1])<<8
+}
+
+// SpecWord, SpecGfmul: exported (under the verif tag only) for the contracts of rsec16.
+func SpecWord(s []byte, k int) T { return specWord(s, k) }
+func SpecGfmul(a, b T) T       { return specGfmul(a, b) }
+
 // specPow3 is 3^k (3 = x+1 generates the multiplicative group).
 func specPow3(k int) T {
 	if k <= 0 {
@@ -270,3 +279,92 @@ func specGfpow(t T, p int) T {
 //@   uses powPow3(int(logTable[t-1]), int(p))
 //@   uses powZero(int(p))
 //@   uses powExpZero(t)
+
+// ---- bulk kernels (C09) -----------------------------------------------------------
+
+// One row of the byte-split product table, for an arbitrary constant (instance of mulTableOK).
+//@ lemma tablesMulRow
+//@   props C09 C11 C07 C12
+//@   kind exhaust
+//@   forall c T
+//@   ensures forallv(j, byte, mulTable[c].s0[j] == specGfmul(c, T(j)) && mulTable[c].s8[j] == specGfmul(c, T(j)<<8))
+
+// lo | hi<<8 == lo ^ hi<<8 for bytes, and the product splits accordingly.
+//@ lemma mulSplitBytes
+//@   props C09 C11 C07 C12
+//@   opaque
+//@   forall c T, lo byte, hi byte
+//@   ensures specGfmul(c, T(lo) | T(hi)<<8) == specGfmul(c, T(lo)) ^ specGfmul(c, T(hi)<<8)
+//@   use mulAddR(c, T(lo), T(hi)<<8)
+
+//@ func mulByteSliceLEGeneric
+//@   props C09
+//@   opaque
+//@   requires len(in) % 2 == 0 && len(out) >= len(in)
+//@   requires sameSlice(in, out[:len(in)]) || disjoint(in, out)
+//@   modifies out[:len(in)]
+//@   ensures forall(k, 0, len(in)/2, specWord(out, k) == specGfmul(c, old(specWord(in, k))))
+//@   uses tablesMulRow(c)
+//@   loop 0
+//@     invariant i % 2 == 0 && 0 <= i && i <= len(in)
+//@     invariant forall(k, 0, i/2, specWord(out, k) == specGfmul(c, old(specWord(in, k))))
+//@     invariant forall(k, i, len(in), in[k] == old(in[k]))
+//@     use-step mulSplitBytes(c, head(in[i]), head(in[i+1]))
+
+//@ func mulAndAddByteSliceLEGeneric
+//@   props C09
+//@   opaque
+//@   requires len(in) % 2 == 0 && len(out) >= len(in)
+//@   requires disjoint(in, out)
+//@   modifies out[:len(in)]
+//@   ensures forall(k, 0, len(in)/2, specWord(out, k) == old(specWord(out, k)) ^ specGfmul(c, old(specWord(in, k))))
+//@   uses tablesMulRow(c)
+//@   loop 0
+//@     invariant i % 2 == 0 && 0 <= i && i <= len(in)
+//@     invariant forall(k, 0, i/2, specWord(out, k) == old(specWord(out, k)) ^ specGfmul(c, old(specWord(in, k))))
+//@     invariant forall(k, i, len(in), out[k] == old(out[k]))
+//@     invariant forall(k, 0, len(in), in[k] == old(in[k]))
+//@     use-step mulSplitBytes(c, head(in[i]), head(in[i+1]))
+
+//@ lemma mulSplitWord
+//@   props C09 C11 C07 C12
+//@   opaque
+//@   forall c T, w T
+//@   ensures specGfmul(c, w) == specGfmul(c, w & 0xff) ^ specGfmul(c, (w >> 8) << 8)
+//@   use mulAddR(c, w & 0xff, (w >> 8) << 8)
+
+// The same row, indexed the way the []T kernels index it.
+//@ lemma tablesMulRowW
+//@   props C09 C11 C07 C12
+//@   kind exhaust
+//@   forall c T
+//@   ensures forallv(w, T, mulTable[c].s0[w&0xff] == specGfmul(c, w&0xff) && mulTable[c].s8[w>>8] == specGfmul(c, (w>>8)<<8))
+
+//@ func mulSliceGeneric
+//@   props C09
+//@   opaque
+//@   requires len(out) >= len(in)
+//@   requires sameSlice(in, out[:len(in)]) || disjoint(in, out)
+//@   modifies out[:len(in)]
+//@   ensures forall(k, 0, len(in), out[k] == specGfmul(c, old(in[k])))
+//@   uses tablesMulRowW(c)
+//@   loop 0
+//@     invariant 0 <= i && i <= len(in)
+//@     invariant forall(k, 0, i, out[k] == specGfmul(c, old(in[k])))
+//@     invariant forall(k, i, len(in), in[k] == old(in[k]))
+//@     use-step mulSplitWord(c, head(in[i]))
+
+//@ func mulAndAddSliceGeneric
+//@   props C09
+//@   opaque
+//@   requires len(out) >= len(in)
+//@   requires disjoint(in, out)
+//@   modifies out[:len(in)]
+//@   ensures forall(k, 0, len(in), out[k] == old(out[k]) ^ specGfmul(c, old(in[k])))
+//@   uses tablesMulRowW(c)
+//@   loop 0
+//@     invariant 0 <= i && i <= len(in)
+//@     invariant forall(k, 0, i, out[k] == old(out[k]) ^ specGfmul(c, old(in[k])))
+//@     invariant forall(k, i, len(in), out[k] == old(out[k]))
+//@     invariant forall(k, 0, len(in), in[k] == old(in[k]))
+//@     use-step mulSplitWord(c, head(in[i]))
